@@ -412,6 +412,8 @@ def main(repo: Path, out: Path) -> None:
     dr = parse(repo, "docx_reader.py")
     cft = read_string_set(top_assign(dr, "CONTENT_FILE_TYPES"), "CONTENT_FILE_TYPES")
     overwrite = read_overwrite(dr, cft)
+    tr = parse(repo, "text_runs.py")
+    off_values = read_string_set(top_assign(tr, "_OFF_VALUES"), "_OFF_VALUES")
     dt = parse(repo, "docx_text.py")
     opens, closes = read_methods(dt, tags)
     depth_none = read_depth_none_tags(dt, tags)
@@ -454,6 +456,8 @@ def main(repo: Path, out: Path) -> None:
              + coq_list([coq_str(s) for s in cft], "str") + ".")
     L.append("Definition save_overwrite_types : list str :=\n  "
              + coq_list([coq_str(s) for s in overwrite], "str") + ".")
+    L.append("Definition off_values : list str :=\n  "
+             + coq_list([coq_str(s) for s in off_values], "str") + ".")
     text = "\n".join(L) + "\n"
     if not out.exists() or out.read_text() != text:
         out.parent.mkdir(parents=True, exist_ok=True)
